@@ -6,46 +6,46 @@ pub fn plan(prop: &str, tier: Tier) -> Option<(&'static str, Vec<Job>)> {
     let q = tier == Tier::Quick;
     let all3: &[&'static str] = &["off", "big", "tiny"];
     let jobs = match prop {
-        "C01" => vec![Job::new("partlog", if q { 1600 } else { 12_000 }).caches(all3)],
-        "C02" => vec![Job::new("partlog", if q { 1600 } else { 12_000 }).caches(all3)],
-        "C03" => vec![Job::new("partlog", if q { 1200 } else { 10_000 }).caches(all3)],
-        "C05" => vec![Job::new("catalogue", if q { 1200 } else { 12_000 }).caches(&["off", "big"])],
+        "C01" => vec![Job::new("partlog", if q { 1600 } else { 40_000 }).caches(all3)],
+        "C02" => vec![Job::new("partlog", if q { 1600 } else { 40_000 }).caches(all3)],
+        "C03" => vec![Job::new("partlog", if q { 1200 } else { 30_000 }).caches(all3)],
+        "C05" => vec![Job::new("catalogue", if q { 1200 } else { 30_000 }).caches(&["off", "big"])],
         "C06" => vec![
-            Job::new("catalogue", if q { 1200 } else { 12_000 }).caches(&["off", "big"]),
-            Job::new("catalogue", if q { 600 } else { 6_000 }).flavour("groups").caches(&["off"]),
+            Job::new("catalogue", if q { 1200 } else { 30_000 }).caches(&["off", "big"]),
+            Job::new("catalogue", if q { 600 } else { 15_000 }).flavour("groups").caches(&["off"]),
         ],
-        "C07" => vec![Job::new("offsets", if q { 1600 } else { 16_000 }).caches(&["off", "big"])],
+        "C07" => vec![Job::new("offsets", if q { 1600 } else { 40_000 }).caches(&["off", "big"])],
         "C08" => vec![
             Job::new("groupcomp", if q { 30_000 } else { 1_000_000 }),
-            Job::new("groups", if q { 1200 } else { 12_000 }).caches(&["off", "big"]),
+            Job::new("groups", if q { 1200 } else { 30_000 }).caches(&["off", "big"]),
         ],
         "C09" => vec![
             Job::new("permrules", if q { 60_000 } else { 2_000_000 }),
             Job::new("authgate", if q { 24 } else { 300 }).workers(12),
-            Job::new("permhist", if q { 800 } else { 8_000 }),
+            Job::new("permhist", if q { 800 } else { 20_000 }),
         ],
         "C10" => vec![Job::new("creds", if q { 2400 } else { 24_000 })],
         "C11" => vec![
-            Job::new("journal-tamper", if q { 128 } else { 1_000 }).timeout(600).shrink(12),
-            Job::new("journal-sched", if q { 1600 } else { 16_000 }).shrink(60),
+            Job::new("journal-tamper", if q { 128 } else { 1_500 }).timeout(600).shrink(12),
+            Job::new("journal-sched", if q { 1600 } else { 40_000 }).shrink(60),
         ],
-        "C04" => vec![Job::new("crash", if q { 480 } else { 6_000 }).caches(&["off", "big"]).timeout(600).shrink(40)],
+        "C04" => vec![Job::new("crash", if q { 480 } else { 8_000 }).caches(&["off", "big"]).timeout(600).shrink(40)],
         "C12" => vec![Job::new("conc", if q { 2400 } else { 60_000 }).workers(8).caches(&["off", "big", "tiny"]).shrink(30)],
-        "C20" => vec![Job::new("sdkclients", if q { 320 } else { 10_000 }).shrink(40)],
+        "C20" => vec![Job::new("sdkclients", if q { 320 } else { 4_000 }).shrink(40)],
         "C13" => vec![
             Job::new("wire", if q { 40_000 } else { 1_500_000 }),
             Job::new("catalogue", if q { 600 } else { 6_000 }).caches(&["off", "big"]),
-            Job::new("frames", if q { 1000 } else { 10_000 }).shrink(60),
+            Job::new("frames", if q { 1000 } else { 15_000 }).shrink(60),
         ],
-        "C14" => vec![Job::new("partlog", if q { 1400 } else { 10_000 }).caches(all3)],
-        "C15" => vec![Job::new("partlog", if q { 1400 } else { 10_000 }).caches(all3)],
-        "C16" => vec![Job::new("partlog", if q { 1200 } else { 10_000 }).caches(all3)],
-        "C17" => vec![Job::new("partlog", if q { 1600 } else { 12_000 }).caches(&["off", "big"])],
+        "C14" => vec![Job::new("partlog", if q { 1400 } else { 30_000 }).caches(all3)],
+        "C15" => vec![Job::new("partlog", if q { 1400 } else { 30_000 }).caches(all3)],
+        "C16" => vec![Job::new("partlog", if q { 1200 } else { 30_000 }).caches(all3)],
+        "C17" => vec![Job::new("partlog", if q { 1600 } else { 40_000 }).caches(&["off", "big"])],
         "C18" => vec![
-            Job::new("partlog", if q { 1400 } else { 10_000 }).caches(all3),
-            Job::new("partlog", if q { 300 } else { 3_000 }).flavour("dedup-off").caches(&["off", "big"]),
+            Job::new("partlog", if q { 1400 } else { 30_000 }).caches(all3),
+            Job::new("partlog", if q { 300 } else { 6_000 }).flavour("dedup-off").caches(&["off", "big"]),
         ],
-        "C19" => vec![Job::new("partlog", if q { 1000 } else { 8_000 }).caches(&["off", "big"])],
+        "C19" => vec![Job::new("partlog", if q { 1000 } else { 24_000 }).caches(&["off", "big"])],
         _ => return None,
     };
     let level = if matches!(prop, "C04" | "C11") { "fault_enumeration" } else { "exploration" };
